@@ -73,6 +73,10 @@ func msmPoints(cls string, n int, p *prg) []banderwagon.Element {
 func msmScalars(cls string, n, smallPct int, p *prg) []*big.Int {
 	out := make([]*big.Int, n)
 	for i := 0; i < n; i++ {
+		if cls == "asmont" { // canonical values that look like Montgomery forms of small numbers (and the reverse)
+			out[i] = montClass([]string{"asmont:1", "asmont:2", "asmont:-1", "asmont:R", "mont:1", "mont:2^64"}[i%6])
+			continue
+		}
 		if cls == "mont" { // single-word Montgomery forms
 			out[i] = montWords(new(big.Int).SetUint64(uint64(p.intn(1<<30))<<34 | uint64(i+1)))
 			continue
@@ -167,15 +171,17 @@ func (d *driver) runMsmReuse(w emitter, k int, c *msmCase) {
 	vals := msmScalars("rnd", c.N, 0, p)
 	scs := toFr(vals, true)
 	cfg := getConf()
-	for step := 0; step < 4; step++ {
+	for step := 0; step < 5; step++ {
 		switch step {
 		case 1:
 			vals[0] = new(big.Int).Add(vals[0], big.NewInt(1))
 			vals[0].Mod(vals[0], modR)
 			scs[0] = frFromBig(vals[0])
 		case 2:
-			pts[len(pts)-1] = cfg.SRS[(k+77)%256]
+			pts[len(pts)/2] = cfg.SRS[(k+33)%256] // an INTERIOR point (both ends unchanged)
 		case 3:
+			pts[len(pts)-1] = cfg.SRS[(k+77)%256]
+		case 4:
 			for i := range vals {
 				vals[i] = big.NewInt(int64(i % 3))
 				scs[i] = frFromBig(vals[i])
